@@ -5,7 +5,8 @@ completes at most once with the reply to that very request, each incoming messag
 once, sequence numbers are never reused, and the threads never deadlock or sleep through a wake-up while
 data is pending.
 
-Machine: `RpycModel/Conc/Serve/Model.lean` (any number of client threads and background serving threads,
+Machine: `RpycModel/Conc/Serve/Model.lean` (any number of client threads, background serving threads and
+polling threads (`poll_all` / `AsyncResult.ready`, i.e. `serve(timeout, wait_for_lock=False)`),
 any interleaving at source-line granularity, a peer answering outstanding requests in any order, time
 passing at any moment).  Every theorem is over `Reachable`, i.e. all interleavings, unbounded threads,
 calls and steps.  Helper lemmas and the inductive invariants are in `RpycModel/Conc/Serve/*.lean`.
@@ -196,6 +197,26 @@ example : ∃ s, run init eofWhileParked = some s ∧ s.eof = true ∧ s.closed 
 example : ∃ s, run init (eofWhileParked ++ r 1 7 ++ r 2 14) = some s ∧ s.closed = true ∧ s.waiters = [] ∧
     (s.loc 1).pc = .idle ∧ (s.loc 1).result = some .eof ∧ (s.loc 2).pc = .idle ∧ (s.loc 2).result = some .eof := by
   refine ⟨(run init (eofWhileParked ++ r 1 7 ++ r 2 14)).get (by decide), by simp, ?_⟩
+  decide
+
+/-- a polling thread (`conn.poll_all(0)` = `serve(0, wait_for_lock=False)`, thread 2) is the receiver: it holds the
+receive lock while caller 1 (no expiry) fails the try-lock and parks on the condition; when its poll times out it
+releases the lock — at that moment the wake-up is still owed (`n0`) — then notifies, and the caller is off the
+wait-set.  A second poller (thread 3) that finds the lock taken returns at once (`s2f`, then `q1`). -/
+def pollerReceives : List Actor :=
+  [.pollAll 2 0] ++ r 2 4 ++ [.call 1 none] ++ r 1 7 ++ [.pollAll 3 0] ++ r 3 4
+
+example : ∃ s, run init pollerReceives = some s ∧ s.recvLock = some 2 ∧ s.waiters = [1] ∧ (s.loc 2).pc = .p0 ∧
+    (s.loc 2).nowait = true ∧ (s.loc 3).pc = .q1 ∧ (s.loc 1).wdl = none := by
+  refine ⟨(run init pollerReceives).get (by decide), by simp, ?_⟩
+  decide
+
+example : ∃ s, run init (pollerReceives ++ r 2 2) = some s ∧ s.recvLock = none ∧ s.waiters = [1] ∧ (s.loc 2).pc = .n0 := by
+  refine ⟨(run init (pollerReceives ++ r 2 2)).get (by decide), by simp, ?_⟩
+  decide
+
+example : ∃ s, run init (pollerReceives ++ r 2 4) = some s ∧ s.waiters = [] ∧ (s.loc 1).pc = .zz ∧ enabled s 1 = true := by
+  refine ⟨(run init (pollerReceives ++ r 2 4)).get (by decide), by simp, ?_⟩
   decide
 
 example : ∃ s, Reachable s ∧ s.waiters ≠ [] ∧ s.chan ≠ [] :=
